@@ -6,6 +6,7 @@ import (
 	"go/token"
 	"go/types"
 	"math/big"
+	"regexp"
 	"sort"
 	"strings"
 
@@ -89,9 +90,20 @@ func (u *Unit) fact(pc, f string) {
 	u.emit("(assert " + tImp(pc, f) + ")")
 }
 
-func (u *Unit) Query(o *Obligation) string {
+// RelaxedQuery drops every quantified assertion: its models are only candidates (they may violate a
+// dropped assumption) and are believed only when they replay on the real code.
+func (u *Unit) RelaxedQuery(o *Obligation) string {
+	return u.query(o, true)
+}
+
+func (u *Unit) Query(o *Obligation) string { return u.query(o, false) }
+
+func (u *Unit) query(o *Obligation, relaxed bool) string {
 	var sb strings.Builder
 	for _, l := range u.Log[:o.LogLen] {
+		if relaxed && strings.HasPrefix(l, "(assert") && (strings.Contains(l, "(forall ") || strings.Contains(l, "(exists ")) {
+			continue
+		}
 		sb.WriteString(l)
 		sb.WriteByte('\n')
 	}
@@ -133,6 +145,7 @@ type FuncCtx struct {
 	inlineStack map[*ssa.Function]bool
 	freshRefs map[string]bool
 	guardMode bool
+	recSelf   string
 }
 
 type State struct {
@@ -583,8 +596,18 @@ func (fc *FuncCtx) bumpAlloc(st *State) {
 
 // ---------- heap components ----------
 
+var reByte = regexp.MustCompile(`\bbyte\b`)
+var reRune = regexp.MustCompile(`\brune\b`)
+
 func typeKey(t types.Type) string {
-	return shortType(t)
+	s := shortType(t)
+	if strings.Contains(s, "byte") {
+		s = reByte.ReplaceAllString(s, "uint8")
+	}
+	if strings.Contains(s, "rune") {
+		s = reRune.ReplaceAllString(s, "int32")
+	}
+	return s
 }
 
 // compTerm returns the current term of a heap component, creating its initial symbol lazily.
@@ -602,20 +625,26 @@ func (fc *FuncCtx) compTerm(st *State, key, sort string) string {
 			return fc.u.fresh("volatile!"+clip(key, 30), sort)
 		}
 	}
-	ep := st.epoch
-	for _, h := range st.pendingHavoc {
-		if h.match(key) {
-			ep = h.epoch
-		}
+	if t, ok := st.heap[key]; ok && !strings.HasPrefix(t, "?") {
+		return t
 	}
-	if t, ok := st.heap[key]; ok {
-		if !strings.HasPrefix(t, "?") {
-			return t
-		}
-		fmt.Sscanf(t[1:], "%d", &ep)
-	}
-	name := qsym(fmt.Sprintf("H%d!%s", ep, key))
+	name := qsym(fmt.Sprintf("H%d!%s", st.epoch, key))
 	fc.u.declare(name, "(declare-fun "+name+" () "+sort+")")
+	for _, h := range st.pendingHavoc {
+		if !h.match(key) {
+			continue
+		}
+		nxt := qsym(fmt.Sprintf("H%d!%s", h.epoch, key))
+		fc.u.declare(nxt, "(declare-fun "+nxt+" () "+sort+")")
+		if h.frame != "" && strings.HasPrefix(sort, "(Array Int ") {
+			fk := "frame:" + nxt
+			if !fc.u.declared[fk] {
+				fc.u.declared[fk] = true
+				fc.u.emit("(assert (forall ((r Int)) (! (=> (<= r " + h.frame + ") (= (select " + nxt + " r) (select " + name + " r))) :pattern ((select " + nxt + " r)))))")
+			}
+		}
+		name = nxt
+	}
 	st.heap[key] = name
 	return name
 }
@@ -917,22 +946,34 @@ func (fc *FuncCtx) havocAll(st *State) {
 	}
 }
 
-func (fc *FuncCtx) havocKeys(st *State, match func(key string) bool) {
-	// Components that were never touched in this state have no entry; give matching
-	// entries (and those not present) a fresh epoch-specific identity by recording an
-	// explicit fresh symbol when the key is present, and a tombstone otherwise.
+// havocKeys forgets the components selected by match. If frame != "" (a term for the allocation
+// counter before the operation) the operation is known to write only objects it allocated itself:
+// entries of references <= frame keep their values.
+func (fc *FuncCtx) havocKeys(st *State, match func(key string) bool, frame string) {
 	ep := fc.newEpoch()
-	for k := range st.heap {
-		if match(k) {
-			st.heap[k] = fmt.Sprintf("?%d", ep)
+	for k, cur := range st.heap {
+		if !match(k) || strings.HasPrefix(k, "L!") {
+			continue
 		}
+		srt := fc.compSorts[k]
+		if strings.HasPrefix(cur, "?") || srt == "" {
+			delete(st.heap, k)
+			continue
+		}
+		nxt := qsym(fmt.Sprintf("H%d!%s", ep, k))
+		fc.u.declare(nxt, "(declare-fun "+nxt+" () "+srt+")")
+		if frame != "" && strings.HasPrefix(srt, "(Array Int ") {
+			fc.u.emit("(assert (forall ((r Int)) (! (=> (<= r " + frame + ") (= (select " + nxt + " r) (select " + cur + " r))) :pattern ((select " + nxt + " r)))))")
+		}
+		st.heap[k] = nxt
 	}
-	st.pendingHavoc = append(st.pendingHavoc, havocRec{ep, match})
+	st.pendingHavoc = append(st.pendingHavoc, havocRec{ep, match, frame})
 }
 
 type havocRec struct {
 	epoch int
 	match func(string) bool
+	frame string
 }
 
 var _ = token.NoPos
